@@ -278,13 +278,26 @@ fn exec_race(sc: &Scenario) -> Report {
         // all programs are done: dropping the last handles must stop every ticker, promptly and
         // without the clock having to move
         let had_tickers = live_tickers();
+        let panic_owner = sc.c("panic_owner") == 1;
         let dr = call(|| {
             sched::no_time_scope(|| {
-                drop(bars);
-                drop(anchor);
-                drop(mp);
+                if panic_owner {
+                    // the last handles go away while their owner unwinds from a panic
+                    let h = verif_simrt::thread::spawn_named("user-panic", move || {
+                        let _keep = (bars, anchor, mp);
+                        panic!("VERIF-INTENTIONAL panic of the thread that owns the last handles");
+                    });
+                    let _ = h.join();
+                } else {
+                    drop(bars);
+                    drop(anchor);
+                    drop(mp);
+                }
             })
         });
+        if panic_owner {
+            r.probe("last_handles_dropped_while_unwinding");
+        }
         if let Err(p) = dr {
             r.violate("C08.no_panic", format!("dropping the last handles panicked: {p}"));
         }
@@ -313,6 +326,15 @@ fn exec_race(sc: &Scenario) -> Report {
             rep.violation = Some(("C08.deadlock".into(), format!("no runnable thread and no pending timer; wait-for: {d}")));
         }
     }
+    if out.step_cap_hit && rep.violation.is_none() {
+        // the short programs of a scenario need a few hundred steps; a world that is still busy
+        // after 60 000 has a call that never returns while another thread keeps running
+        rep.harness_error = None;
+        rep.violate(
+            "C08.no_progress",
+            "the scenario did not come to an end within the step cap: some call does not return while another thread (a steady ticker) keeps running".to_string(),
+        );
+    }
     rep
 }
 
@@ -327,6 +349,14 @@ fn exec_ticker(sc: &Scenario) -> Report {
         sched::name_current_thread("user-0");
         let term = SimTerm::new(30, 10);
         term.lock().snapshot_at_flush = true;
+        // a slow terminal: every flush takes simulated time (while the bar's lock is held)
+        let slow_ns = sc.c("slow_flush_ns");
+        if slow_ns > 0 {
+            term.set_fault(crate::simterm::FaultPlan {
+                slow_flush_ns: slow_ns,
+                ..Default::default()
+            });
+        }
         let d_ns = INTERVALS_NS[(sc.c("interval") as usize) % INTERVALS_NS.len()];
         let d = Duration::from_nanos(d_ns);
         let pb = ProgressBar::with_draw_target(Some(100), ProgressDrawTarget::term_like(Box::new(term.clone())))
@@ -404,7 +434,7 @@ fn exec_ticker(sc: &Scenario) -> Report {
                     };
                     // each loop of the ticker costs one interval plus the (injected) time its own
                     // clock reads take
-                    let period = d_ns + 8 * sc.c("now_jitter_ns");
+                    let period = d_ns + 8 * sc.c("now_jitter_ns") + slow_ns;
                     let expect = (k * d_ns / period).saturating_sub(1);
                     if installed && !finished && painted_by_ticker < expect {
                         r.violate(
@@ -497,6 +527,15 @@ fn exec_ticker(sc: &Scenario) -> Report {
             rep.violation = Some(("C08.deadlock".into(), format!("no runnable thread and no pending timer; wait-for: {d}")));
         }
     }
+    if out.step_cap_hit && rep.violation.is_none() {
+        // the short programs of a scenario need a few hundred steps; a world that is still busy
+        // after 60 000 has a call that never returns while another thread keeps running
+        rep.harness_error = None;
+        rep.violate(
+            "C08.no_progress",
+            "the scenario did not come to an end within the step cap: some call does not return while another thread (a steady ticker) keeps running".to_string(),
+        );
+    }
     rep
 }
 
@@ -556,6 +595,7 @@ impl Check for C08 {
             let mut sc = Scenario::new("C08", "ticker", rng.next_u64());
             sc.set("interval", rng.below(5));
             sc.set("on_finish", rng.below(5));
+            sc.set("slow_flush_ns", *rng.pick(&[0, 0, 0, 300_000, 5_000_000]));
             if rng.chance(1, 2) {
                 // two bits per call: 0 = original handle, 1 = clone, 2 = upgraded weak handle
                 let mut m = 0u64;
@@ -590,6 +630,7 @@ impl Check for C08 {
         sc.set("visible", rng.chance(1, 2) as u64);
         sc.set("on_finish", rng.below(5));
         sc.set("atomics_yield", rng.chance(1, 4) as u64);
+        sc.set("panic_owner", rng.chance(1, 8) as u64);
         gen_sched_cfg(&mut sc, rng, 40 * nt as u64);
         let mut threads = vec![];
         for ti in 0..nt {
@@ -645,6 +686,6 @@ impl Check for C08 {
         }
     }
     fn shrink_cfg(&self) -> Vec<(&'static str, u64)> {
-        vec![("handle_mask", 0), ("use_mp", 0), ("visible", 0), ("now_jitter_ns", 0), ("spurious_pm", 0), ("n_bars", 1), ("atomics_yield", 0)]
+        vec![("handle_mask", 0), ("slow_flush_ns", 0), ("panic_owner", 0), ("use_mp", 0), ("visible", 0), ("now_jitter_ns", 0), ("spurious_pm", 0), ("n_bars", 1), ("atomics_yield", 0)]
     }
 }
